@@ -22,7 +22,7 @@ CONFIGS = {
                                      "-fno-omit-frame-pointer", "-DVH_ASAN=1"], env=ASAN_ENV),
     "msan": dict(cc="clang", cflags=["-std=gnu11", "-O1", "-g", "-fsanitize=memory", "-fno-omit-frame-pointer",
                                      "-DVH_MSAN=1"],
-                 env={"MSAN_OPTIONS": "halt_on_error=0:print_summary=0:handle_segv=0:handle_abort=0:"
+                 env={"MSAN_OPTIONS": "halt_on_error=1:exit_code=77:print_summary=0:handle_segv=0:handle_abort=0:"
                                       "allow_user_segv_handler=1"}),
 }
 
@@ -78,6 +78,8 @@ ENGINES = [
     {"name": "E-fault", "path": "checks/c18.c + engine/vmalloc.c", "serves_properties": ["C18"],
      "kind_free_text": "deviation-bounded enumeration of environment answers: the k-th allocation of a call fails, for every k "
                        "(and every pair), through a link-time interposed allocator with leak / redzone oracles"},
+    {"name": "E-hist", "path": "checks/c15.c", "serves_properties": ["C15"],
+     "kind_free_text": "enumeration of bounded call histories and stack/heap residues in forked children against fresh-process baselines"},
     {"name": "E-bfs", "path": "checks/bitmap_bfs.c", "serves_properties": ["C08"],
      "kind_free_text": "explicit-state breadth-first search over operation histories of the real object, state "
                        "deduplication on a canonical key, reference-model comparison after every transition"},
@@ -262,4 +264,26 @@ CHECKS["C18"] = dict(
                 "reference set (pre- or post-state), then driven through a follow-up sequence",
     technique="exhaustive fault enumeration (every k-th allocation fails, bound 1 and 2) on the real code with reference-model oracle",
     assumptions=["allocation is the only fault source the library has", "CountUnique/Analyze are documented as approximate: only sanity is demanded of them under faults"],
+)
+
+CHECKS["C15"] = dict(
+    name="c15", harness=["checks/c15.c", "engine/vmalloc.c"], wrap_malloc=True, engine="E-hist",
+    libs=LIBS_ALL,
+    configs={"quick": ["pinned", "msan"], "thorough": ["pinned", "debug", "msan"]},
+    shards={"pinned": 16, "debug": 16, "msan": 16},
+    deadline={"quick": 150, "thorough": 1800},
+    rule="operation alphabet O of ~100 calls (every encoder / decoder / sizing / metadata entry point on five small fixed inputs, "
+         "two of them with equal element counts and different data); baseline = observable outputs (return values, output bytes up "
+         "to the returned length, the metadata fields that carry meaning) of each operation alone in a fresh exec'ed process; "
+         "explored in children forked from a parent that never called the library: every ordered pair (p, c) in O x O, thorough: "
+         "every ordered triple over the ~30 operations that share element counts; residue: every c x 16 stack words (0, ~0, a5.., "
+         "1..8 and the element counts) painted over 64 KiB below the frame x 3 heap fill bytes x {fresh blocks, recycled blocks "
+         "with contents kept}; msan build: the same pairs, any use of uninitialised memory ends the child with exit code 77; class "
+         "= (first operation of the pair) / (operation under residue)",
+    explanation="bounded exhaustive enumeration of call histories (length 2, 3) and of one-deviation environments (stack / heap "
+                "residue) on the real code; oracle = byte equality of the last call's observable outputs with its fresh-process "
+                "baseline; MemorySanitizer as second oracle on the same histories",
+    technique="exhaustive enumeration of bounded call histories and environment residues against fresh-process baselines (stateless model checking of history-independence)",
+    assumptions=["histories longer than 3 calls and residues outside the alphabet are not explored",
+                 "struct padding and metadata fields the format cannot carry are not compared"],
 )
